@@ -457,7 +457,11 @@ class HelicityAmplitudeBuilder:
 
         amplitude = self.config.spin_alignment.formulate_amplitude(self.reaction)
         spin_projections = collect_spin_projections(self.reaction)
-        intensity = PoolSum(sp.Abs(amplitude) ** 2, *spin_projections.items())
+        intensity = PoolSum(
+            sp.Abs(amplitude) ** 2,
+            # sorted, because the iteration order of a set depends on PYTHONHASHSEED
+            *((symbol, sorted(values)) for symbol, values in spin_projections.items()),
+        )
         self.__register_vanishing_amplitudes(intensity)
         return intensity
 
